@@ -843,6 +843,32 @@ Proof.
     + rewrite b_stop_mark, (execute_stop _ _ _ _ _ _ _ _ _ Ee). exact Hs.
 Qed.
 
+(* the key a task records is the change key of its own target (for some dependency hashes) *)
+Lemma pt_b0_key i key b k :
+  rt_key (get_rt b i) = None -> rt_key (get_rt (pt_b0 i key b) i) = Some k -> k = key.
+Proof.
+  intros Hn Hk. unfold pt_b0 in Hk. destruct (lt_dec i (rt_len b)) as [Hi|Hi].
+  - rewrite get_rt_set_rt_same in Hk; [|exact Hi]. cbn [rt_key] in Hk. congruence.
+  - rewrite get_rt_set_rt_oob in Hk; [congruence | lia].
+Qed.
+
+Lemma pt_key_shape cfg s i t b k :
+  cfg_mode cfg = LAll -> get_rt b i = rt0 ->
+  rt_key (get_rt (process_target H cfg s i t b) i) = Some k -> exists dh, k = pt_key s t dh.
+Proof.
+  intros Hm Hf. assert (Hl : rt_loaded (get_rt b i) = false) by (rewrite Hf; reflexivity).
+  assert (Hn : rt_key (get_rt b i) = None) by (rewrite Hf; reflexivity).
+  destruct (pt_LAll_cases cfg s i t b Hm) as [[_ ->]|(dh & _ & [(res & b1 & _ & _ & El & ->)|(bm & ok & b3 & Hbm & Ee & ->)])];
+    rewrite rt_key_mark; intro Hk.
+  - congruence.
+  - apply load_outputs_frame in El; [|rewrite pt_b0_loaded; exact Hl].
+    destruct El as (_ & _ & _ & _ & _ & Hkey & _). rewrite Hkey in Hk.
+    exists dh. apply (pt_b0_key i _ b k Hn Hk).
+  - apply pt_bm_facts in Hbm; [|exact Hl]. destruct Hbm as (_ & _ & _ & _ & _ & Hkey & _).
+    destruct (execute_rt_i _ _ _ _ _ _ _ _ _ Ee) as [Hk3 _]. rewrite Hk3, Hkey in Hk.
+    exists dh. apply (pt_b0_key i _ b k Hn Hk).
+Qed.
+
 Lemma exec_b0_exec t b : b_exec (exec_b0 t b) = b_exec b \/ b_exec (exec_b0 t b) = b_exec b ++ [td_label t].
 Proof. unfold exec_b0. destruct (null (td_cmd t)); [left | right]; reflexivity. Qed.
 
@@ -1221,6 +1247,20 @@ Lemma pn_other b i j : fresh b i -> j <> i -> get_rt (pn b i) j = get_rt b j.
 Proof. intros Hf Hj. destruct (pn_frame b i Hf) as (_ & Hr & _). apply Hr, Hj. Qed.
 
 (* ------------------------------------------------------------------ runs over distinct fresh nodes *)
+Definition key_shape (i : nat) (k : str) : Prop :=
+  exists t dh, node_at s i = Some (NTarget t) /\ k = pt_key s t dh.
+
+Lemma pn_key_shape b i k : fresh b i -> rt_key (get_rt (pn b i) i) = Some k -> key_shape i k.
+Proof.
+  intros Hf Hk. assert (Hn : rt_key (get_rt b i) = None) by (rewrite Hf; reflexivity).
+  destruct (pn_shape b i) as [E|[(st & E & _)|(t & Ht & [E|[E _]])]]; rewrite E in Hk.
+  - congruence.
+  - rewrite rt_key_mark in Hk. congruence.
+  - destruct (pt_key_shape cfg s i t b k Hmode Hf Hk) as [dh ->]. exists t, dh. auto.
+  - change (get_rt (set_stop (process_target H cfg s i t b)) i) with (get_rt (process_target H cfg s i t b) i) in Hk.
+    destruct (pt_key_shape cfg s i t b k Hmode Hf Hk) as [dh ->]. exists t, dh. auto.
+Qed.
+
 Lemma run_cons i l b : run (i :: l) b = run l (pn b i).
 Proof. reflexivity. Qed.
 
@@ -1251,6 +1291,21 @@ Qed.
 
 (* invariant rule: Q is carried along a run when every step preserves it, given what the
    step leaves in its own runtime record (which is what the final state still shows) *)
+Lemma run_key_shape l : forall b, NoDup l -> (forall i, In i l -> fresh b i) ->
+  (forall i k, rt_key (get_rt b i) = Some k -> key_shape i k) ->
+  forall i k, rt_key (get_rt (run l b) i) = Some k -> key_shape i k.
+Proof.
+  induction l as [|a l IH]; intros b Hnd Hfr Hb; [exact Hb|].
+  rewrite run_cons. inversion Hnd as [|? ? Hna Hnd']; subst.
+  pose proof (Hfr a (or_introl eq_refl)) as Hfa.
+  apply IH; [exact Hnd' | |].
+  - intros i Hi. unfold fresh. rewrite pn_other; [apply Hfr; right; exact Hi | exact Hfa |].
+    intro; subst; contradiction.
+  - intros i k Hk. destruct (Nat.eq_dec i a) as [->|Hia].
+    + apply (pn_key_shape b a k Hfa Hk).
+    + rewrite pn_other in Hk; [apply Hb; exact Hk | exact Hfa | exact Hia].
+Qed.
+
 Lemma run_inv (Q : bstate -> Prop) (G : nat -> rt -> Prop) :
   (forall i b, fresh b i -> i < rt_len b -> Q b -> G i (get_rt (pn b i) i) -> Q (pn b i)) ->
   forall l b, NoDup l -> (forall i, In i l -> fresh b i /\ i < rt_len b) -> Q b ->
@@ -1492,8 +1547,8 @@ Lemma change_key_ext fs fs' st :
   (forall p, In p (ts_ins st) -> fs p = fs' p) -> change_key H fs st = change_key H fs' st.
 Proof.
   intro E. unfold change_key.
-  assert (Hf : encode_files fs st = encode_files fs' st).
-  { unfold encode_files, file_parts. f_equal. apply map_ext_in. intros p Hp. unfold file_bytes.
+  assert (Hf : encode_files H fs st = encode_files H fs' st).
+  { unfold encode_files. f_equal. apply map_ext_in. intros p Hp. unfold file_item.
     rewrite E; [reflexivity|]. eapply Permutation_in; [apply sort_strs_perm | exact Hp]. }
   rewrite Hf. reflexivity.
 Qed.
@@ -1975,6 +2030,108 @@ Lemma distinct_keys_spec b :
   forall i j k, i <> j -> rt_key (get_rt b i) = Some k -> rt_key (get_rt b j) <> Some k.
 Proof. unfold distinct_keys, keys_of, get_rt. apply distinct_keys_list. Qed.
 
+(* ------------------------------------------------------------------ distinct labels give distinct keys
+   (framed key encoding, HashKey_proofs.key_injective): a decidable guard on the snapshot that implies
+   [distinct_keys] for an injective, '_'-free digest *)
+Fixpoint nodup_labels (l : list label) : bool :=
+  match l with
+  | [] => true
+  | x :: l' => negb (label_in x l') && nodup_labels l'
+  end.
+
+Definition target_labels (s : sources) : list label :=
+  flat_map (fun n => match n with NTarget t => [td_label t] | NAlias _ _ => [] end) (s_nodes s).
+
+Definition distinct_labels (s : sources) : bool := nodup_labels (target_labels s).
+
+Lemma label_in_In l ls : label_in l ls = true <-> In l ls.
+Proof.
+  unfold label_in. rewrite existsb_exists. split.
+  - intros (x & Hx & E). apply label_eqb_eq in E. subst x. exact Hx.
+  - intro Hl. exists l. split; [exact Hl | apply label_eqb_refl].
+Qed.
+
+Lemma distinct_labels_list (L : list ndef) :
+  nodup_labels (flat_map (fun n => match n with NTarget t => [td_label t] | NAlias _ _ => [] end) L) = true ->
+  forall i j ti tj, i <> j -> nth_error L i = Some (NTarget ti) -> nth_error L j = Some (NTarget tj) ->
+                    td_label ti <> td_label tj.
+Proof.
+  set (f := fun n => match n with NTarget t => [td_label t] | NAlias _ _ => [] end).
+  assert (Hin : forall L j t, nth_error L j = Some (NTarget t) -> In (td_label t) (flat_map f L)).
+  { induction L0 as [|x L0 IH]; intros j t Hj; [destruct j; discriminate Hj|].
+    cbn [flat_map]. apply in_or_app. destruct j as [|j]; cbn [nth_error] in Hj.
+    - left. injection Hj as ->. left; reflexivity.
+    - right. eapply IH; exact Hj. }
+  induction L as [|x L IH]; intros Hnd i j ti tj Hij Hi Hj E; [destruct i; discriminate Hi|].
+  cbn [flat_map] in Hnd.
+  assert (Hx : forall t k tk, x = NTarget t -> nth_error L k = Some (NTarget tk) -> td_label t <> td_label tk).
+  { intros t k tk -> Hk E'. cbn [f app nodup_labels] in Hnd. apply andb_true_iff in Hnd as [Hn _].
+    apply negb_true_iff in Hn. rewrite E' in Hn.
+    assert (Hk' : label_in (td_label tk) (flat_map f L) = true) by (apply label_in_In; eapply Hin; exact Hk).
+    congruence. }
+  assert (Hnd' : nodup_labels (flat_map f L) = true).
+  { destruct x as [t|l a]; cbn [f app nodup_labels] in Hnd; [|exact Hnd]. apply andb_true_iff in Hnd as [_ Hnd]. exact Hnd. }
+  destruct i as [|i], j as [|j]; cbn [nth_error] in Hi, Hj.
+  - congruence.
+  - injection Hi as Hi. exact (Hx ti j tj Hi Hj E).
+  - injection Hj as Hj. symmetry in E. exact (Hx tj i ti Hj Hi E).
+  - exact (IH Hnd' i j ti tj ltac:(congruence) Hi Hj E).
+Qed.
+
+Lemma distinct_labels_spec s :
+  distinct_labels s = true ->
+  forall i j ti tj, i <> j -> node_at s i = Some (NTarget ti) -> node_at s j = Some (NTarget tj) ->
+                    td_label ti <> td_label tj.
+Proof. unfold distinct_labels, target_labels, node_at. apply distinct_labels_list. Qed.
+
+Lemma distinct_keys_list_conv (L : list rt) :
+  (forall i j k, i <> j -> rt_key (nth i L rt0) = Some k -> rt_key (nth j L rt0) <> Some k) ->
+  nodup_strs (flat_map (fun x => match rt_key x with Some k => [k] | None => [] end) L) = true.
+Proof.
+  set (f := fun x => match rt_key x with Some k => [k] | None => [] end).
+  assert (Hin : forall L k, In k (flat_map f L) -> exists j, rt_key (nth j L rt0) = Some k).
+  { induction L0 as [|x L0 IH]; intros k Hk; [destruct Hk|].
+    cbn [flat_map] in Hk. apply in_app_or in Hk as [Hk|Hk].
+    - exists 0. cbn [nth]. unfold f in Hk. destruct (rt_key x) as [k'|]; [|destruct Hk].
+      destruct Hk as [->|[]]. reflexivity.
+    - destruct (IH k Hk) as [j Hj]. exists (S j). exact Hj. }
+  induction L as [|x L IH]; intro Hd; [reflexivity|].
+  cbn [flat_map].
+  assert (IH' : nodup_strs (flat_map f L) = true).
+  { apply IH. intros i j k Hij Hi. apply (Hd (S i) (S j) k); [congruence | exact Hi]. }
+  unfold f at 1. destruct (rt_key x) as [k|] eqn:Ek; [|exact IH'].
+  cbn [app nodup_strs]. apply andb_true_iff. split; [|exact IH'].
+  apply negb_true_iff. destruct (str_in k (flat_map f L)) eqn:Es; [|reflexivity].
+  exfalso. apply str_in_spec in Es. destruct (Hin L k Es) as [j Hj].
+  apply (Hd 0 (S j) k); [discriminate | exact Ek | exact Hj].
+Qed.
+
+(* every key a build records is the change key of the target at that node *)
+Lemma build_state_key_shape cfg s roots w c i k :
+  cfg_mode cfg = LAll ->
+  rt_key (get_rt (build_state cfg s roots w c) i) = Some k -> key_shape s i k.
+Proof.
+  intros Hm. unfold build_state.
+  apply (run_key_shape cfg s (selection s roots) Hm).
+  - apply seq_NoDup.
+  - intros j _. apply init_b_fresh.
+  - intros j k' Hk. rewrite init_b_fresh in Hk. discriminate Hk.
+Qed.
+
+Theorem distinct_labels_distinct_keys cfg s roots w c :
+  (forall x y, H x = H y -> x = y) -> (forall x, ~ In ch_us (H x)) ->
+  cfg_mode cfg = LAll -> distinct_labels s = true ->
+  distinct_keys (build_state cfg s roots w c) = true.
+Proof.
+  intros H_inj H_hex Hm Hdl. unfold distinct_keys, keys_of. apply distinct_keys_list_conv.
+  intros i j k Hij Hi Hj.
+  destruct (build_state_key_shape cfg s roots w c i k Hm Hi) as (ti & dhi & Hni & Eki).
+  destruct (build_state_key_shape cfg s roots w c j k Hm Hj) as (tj & dhj & Hnj & Ekj).
+  apply (distinct_labels_spec s Hdl i j ti tj Hij Hni Hnj).
+  rewrite Eki in Ekj. unfold pt_key in Ekj.
+  exact (key_label H H_inj H_hex _ _ _ _ Ekj).
+Qed.
+
 (* perturbations of output paths between the two builds *)
 Definition not_wk (st : pstate) : bool := match st with PWrongKind => false | _ => true end.
 
@@ -2031,6 +2188,24 @@ Proof.
       destruct (build_fields cfg s roots w c) as (_ & Hbc & _). rewrite Hbc. unfold build_state. fold n sel.
       rewrite Est. specialize (Hnf i). unfold build_state in Hnf. fold n sel in Hnf.
       destruct (rt_status (get_rt (run cfg s sel (seq 0 n) (init_b w c n)) i)); cbn [hitify]; congruence.
+Qed.
+
+(* the same with the decidable label guard: with the framed key encoding and an injective, '_'-free
+   digest, pairwise distinct target labels give pairwise distinct keys *)
+Corollary noop_rebuild_labels cfg s roots w c ps :
+  (forall x y, H x = H y -> x = y) -> (forall x, ~ In ch_us (H x)) ->
+  cfg_mode cfg = LAll -> cfg_cache cfg = true -> cache_complete c ->
+  br_ok (build H cfg s roots w c) = true ->
+  distinct_labels s = true ->
+  no_nocache_sel s (selection s roots) = true ->
+  forallb (fun p => not_wk (snd p)) ps = true ->
+  let r1 := build H cfg s roots w c in
+  let w' := mkWorld (apply_perturbs ps (w_ws (br_world r1))) (w_ext (br_world r1)) in
+  let r2 := build H cfg s roots w' (br_cache r1) in
+  br_exec r2 = [] /\ br_ok r2 = true.
+Proof.
+  intros H_inj H_hex Hm Hc Hcc Hok Hdl Hnn Hps.
+  apply noop_rebuild; auto. apply distinct_labels_distinct_keys; assumption.
 Qed.
 
 (* ================================================================== C02_exec_only_if / C02_hit_if (single task) *)
@@ -2712,29 +2887,40 @@ Proof.
   apply empty_cache_complete.
 Qed.
 
-(* without distinct keys the statement is false: //p:a + "bc" and //p:ab + "c" (label|command
-   boundary) with outputs ["x,file::y"] and ["x";"y"] (separator inside an element) share one
-   change key; the second result overwrites the first and the rebuild re-executes both *)
-Definition tA := mkTD (Lb ["a"]) ["b";"c"] [] [] [mkOut OFile ["x";",";"f";"i";"l";"e";":";":";"y"]] [] []
+(* the label guard holds on this instance, and so does the corollary that uses it *)
+Example noop_rebuild_labels_instance : distinct_labels sx = true /\ br_exec r2 = [] /\ br_ok r2 = true.
+Proof.
+  split; [vm_compute; reflexivity|].
+  apply (noop_rebuild_labels hex_enc cfgA sx [3] w0 empty_cache ps hex_enc_inj hex_enc_no_us); try (vm_compute; reflexivity).
+  apply empty_cache_complete.
+Qed.
+
+(* without distinct keys the statement is false, and distinct labels do not give distinct keys when the
+   digest is not injective: under a constant digest //p:a and //p:ab share one change key; the second
+   result overwrites the first (the recorded outputs do not match the first target's) and the rebuild
+   re-executes *)
+Definition constH (x : str) : str := ["h"].
+Definition tA := mkTD (Lb ["a"]) ["b";"c"] [] [] [mkOut OFile ["x"]] [] []
                       false false BNormal false.
-Definition tB := mkTD (Lb ["a";"b"]) ["c"] [] [] [mkOut OFile ["x"]; mkOut OFile ["y"]] [] []
+Definition tB := mkTD (Lb ["a";"b"]) ["c"] [] [] [mkOut OFile ["y"]; mkOut OFile ["z"]] [] []
                       false false BNormal false.
 Definition sR := mkSrc [NTarget tA; NTarget tB] [].
 
 Lemma noop_rebuild_refuted :
   exists (H : str -> str) cfg s roots w c,
-    (forall a b, H a = H b -> a = b) /\
     cfg_mode cfg = LAll /\ cfg_cache cfg = true /\ cache_complete c /\
     br_ok (build H cfg s roots w c) = true /\
     no_nocache_sel s (selection s roots) = true /\
+    distinct_labels s = true /\
     distinct_keys (build_state H cfg s roots w c) = false /\
     let r1 := build H cfg s roots w c in
     br_exec (build H cfg s roots (br_world r1) (br_cache r1)) <> [].
 Proof.
-  exists hex_enc, cfgA, sR, [0; 1], w0, empty_cache.
-  split; [exact hex_enc_inj|]. split; [reflexivity|]. split; [reflexivity|].
+  exists constH, cfgA, sR, [0; 1], w0, empty_cache.
+  split; [reflexivity|]. split; [reflexivity|].
   split; [apply empty_cache_complete|].
   split; [vm_compute; reflexivity|]. split; [vm_compute; reflexivity|]. split; [vm_compute; reflexivity|].
+  split; [vm_compute; reflexivity|].
   vm_compute. discriminate.
 Qed.
 
